@@ -51,6 +51,10 @@ pub struct Case {
     pub suspend: Suspend,
     pub edit: Edit,
     pub probe: ProbeCmd,
+    /// an immediate statement typed at the suspension point before the edit: state opened from the
+    /// prompt (a direct-mode FOR, a READ) is a reference into the old program like any other
+    #[serde(default)]
+    pub pre: Option<String>,
 }
 
 fn reply_texts(c: &ProgCase) -> Vec<String> {
@@ -172,6 +176,22 @@ fn one_placement(c: &Case, k: u32, at_stop: Option<u32>, ctx: &mut Ctx) -> Optio
         Err(e) => return Some(e),
     };
     ctx.count(&format!("fault.edit@{how}"));
+    if let Some(pre) = &c.pre {
+        let calls = s.line_and_settle(pre, 50);
+        ctx.calls(calls.len() as u64);
+        for cl in &calls {
+            if let Some(p) = cl.panicked() {
+                return v("panic", format!("panic@{p}"), format!("`{pre}` at the suspension point unwound: {p}"));
+            }
+        }
+        if s.state() != St::Idle {
+            return None; // the statement started something that is still running: not this scenario
+        }
+        ctx.count("fault.immediate_statement_before_edit");
+        if s.probe(false).loops.iter().any(|l| l.symbol.ends_with('9')) {
+            ctx.count("reach.edit_with_loop_opened_at_the_prompt");
+        }
+    }
     let p0 = s.probe(true);
     if !p0.stack.is_empty() {
         ctx.count("reach.edit_inside_gosub");
@@ -494,7 +514,17 @@ impl Prop for C11 {
         } else {
             Suspend::Boundary(if rng.chance(1, 8) { 100_000 } else { rng.below(120) as u32 })
         };
-        Case { prog, suspend, edit, probe }
+        let mut probe = probe;
+        let pre = if !matches!(edit, Edit::Failed(_)) && rng.chance(1, 5) {
+            let t = rng.pick(&["FOR Q9 = 1 TO 5", "FOR Q9 = 1 TO 5 : FOR W9 = 1 TO 2", "READ Q$", "FOR C = 1 TO 9", "Q9 = 1 : FOR W9 = 3 TO 1"]).to_string();
+            if t.contains("Q9 =") && rng.chance(1, 2) {
+                probe = ProbeCmd::Next(if t.contains("W9") && rng.chance(1, 2) { "W9".into() } else if t.starts_with("FOR Q9") { "Q9".into() } else { "W9".into() });
+            }
+            Some(t)
+        } else {
+            None
+        };
+        Case { prog, suspend, edit, probe, pre }
     }
 
     fn execute(c: &Case, ctx: &mut Ctx) -> Option<Violation> {
